@@ -81,3 +81,29 @@ func VerifC17WSHeld() {
 		verifapi.Assert(m.Request != nil && m.Request.Method == fmt.Sprint("m", i), "c17.ws-message-intact-after-later-reads")
 	}
 }
+
+// VerifC17WSForeign: the messages the other side sends arrive exactly once,
+// intact and in order whichever kind of data frame (text or binary) it uses
+// for each of them.
+func VerifC17WSForeign() {
+	conn := verifConn()
+	codec := &wsCodec{conn: conn}
+	n := verifapi.Param("msgs", 3)
+	for i := 0; i < n; i++ {
+		id, _ := json.Marshal(100 + i)
+		msg := &jsonrpc2.Message{ID: id, Version: jsonrpc2.Version, Request: &jsonrpc2.Request{Method: fmt.Sprint("m", i)}}
+		verifPeerWrites(conn, msg, verifapi.Bool(fmt.Sprint("binary", i)))
+	}
+	for i := 0; i < n; i++ {
+		m, err := codec.ReadMessage()
+		verifapi.Assert(err == nil && m != nil, "c17.ws-every-written-message-is-read")
+		if err != nil || m == nil {
+			return
+		}
+		want, _ := json.Marshal(100 + i)
+		verifapi.Assert(string(m.ID) == string(want) && m.Request != nil && m.Request.Method == fmt.Sprint("m", i), "c17.ws-messages-read-in-order-and-intact")
+	}
+	verifapi.Reach("c17.ws.foreign")
+	_, err := codec.ReadMessage()
+	verifapi.Assert(err != nil, "c17.ws-nothing-read-twice")
+}
